@@ -43,9 +43,68 @@ def run_mux(program, events, end='complete', monitor=True, fail=None, notaps=Fal
     return ctx, final, escaped
 
 
-def run_plain(program, items, end='complete', fail=None):
+def raw_mux_events(events, early=()):
+    """A well-formed keyed stream built by hand (what rs.cast_as_mux_observable() is for): every party is one key lifetime
+    (create right before its first item, completion right after its last item for the parties in `early`, otherwise when the
+    stream ends).  A key is (slot, (party,)): the slot is the lowest index not in use, so that over time one slot index is
+    reused for DIFFERENT key tuples - which the library's own group_by never does, and a well-formed stream may."""
+    last = {}
+    for n, e in enumerate(events):
+        last[e['p']] = n
+    live = {}          # party -> key
+    used = set()
+    out = []
+    early = set(early)
+    for n, e in enumerate(events):
+        p = e['p']
+        if p not in live:
+            slot = 0
+            while slot in used:
+                slot += 1
+            used.add(slot)
+            live[p] = (slot, (p,))
+            out.append(('create', live[p], None, n))
+        out.append(('next', live[p], e, n))
+        if last[p] == n and p in early:
+            out.append(('complete', live[p], None, n))
+            used.discard(live[p][0])
+            del live[p]
+    for p in sorted(live, key=lambda q: live[q][0]):
+        out.append(('complete', live[p], None, len(events)))
+    return out
+
+
+def run_raw(program, events, early=(), fail=None):
+    """hand-built mux events -> cast_as_mux_observable -> with_store(pipeline): the pipeline sits directly on a keyed stream whose
+    keys it did not allocate itself.  The protocol monitor watches every boundary; the final subscriber receives mux events."""
+    install_monitor()
+    ctx = Ctx(monitor=True, fail=fail)
+    ctx.notaps = True
+    manager = rs.state.StoreManager(store_factory=rs.state.MemoryStore)
+    ctx.extra['store'] = manager
+    raw = raw_mux_events(events, early)
+
+    def mk(subject):
+        return subject.pipe(rs.cast_as_mux_observable(), rs.state.with_store(manager, pipeline=build(program, ctx, 'mux', 'P')))
+
+    def mk_item(r):
+        kind, key, e, n = r
+        if kind == 'create':
+            return rs.OnCreateMux(key, None)
+        if kind == 'complete':
+            return rs.OnCompletedMux(key, None)
+        return rs.OnNextMux(key, mk_rec(e), None)
+    final, escaped = drive_hot(ctx, mk, raw, 'complete', mk_item=mk_item)
+    if escaped is not None and innermost_in_verif(escaped):
+        raise escaped
+    return ctx, final, escaped
+
+
+def run_plain(program, items, end='complete', fail=None, extra=None):
     """Subject -> [tap, *program with taps] on an ordinary observable."""
     ctx = Ctx(monitor=False, fail=fail)
+    if extra:
+        ctx.extra.update(extra)
 
     def mk(subject):
         return subject.pipe(*build(program, ctx, 'plain', 'P'))
